@@ -180,6 +180,11 @@ def _worker(cases):
             variables = {"w": to_json(v)}
         elif route == "objvar-absent":
             q = "query ($w: Int) { %s(arg: {y: 0, x: $w}) }" % f
+        elif route == "listvar-given":
+            q = "query ($w: Int) { %s(arg: [0, $w]) }" % f
+            variables = {"w": to_json(v)}
+        elif route == "listvar-absent":
+            q = "query ($w: Int) { %s(arg: [0, $w]) }" % f
         elif route == "argdef-nullvar":
             q = "query ($v: Int) { g2(arg: $v) }"
             variables = {"v": None}
